@@ -7,7 +7,7 @@ mod __verif_kani {
     fn any_bool() -> bool { kani::any() }
     const N: usize = 51; // 32 + 16 + 3: one AVX2 iteration, one SSE2 step, a scalar tail
 
-    //@ kind=P props=C16 fn=yaml::simd::x86::classify_yaml_chars stubs=avx2_enabled : for all 40-byte inputs, every offset and both HAS_CR settings, with the AVX2 flag nondeterministic: None iff fewer than 16 bytes remain; otherwise width is 16 or 32 and for every lane i < width each mask bit i is set iff byte offset+i is the class byte (LF, CR only when HAS_CR, ':', '-', ' ', '"', '\'', '\\', '#'); no bits at or above width; plain_scalar_terminators is the union LF|':'|'#'(|CR)
+    //@ kind=B props=C16 bound=every_40-byte_input,every_offset fn=yaml::simd::x86::classify_yaml_chars stubs=avx2_enabled : for all 40-byte inputs, every offset and both HAS_CR settings, with the AVX2 flag nondeterministic: None iff fewer than 16 bytes remain; otherwise width is 16 or 32 and for every lane i < width each mask bit i is set iff byte offset+i is the class byte (LF, CR only when HAS_CR, ':', '-', ' ', '"', '\'', '\\', '#'); no bits at or above width; plain_scalar_terminators is the union LF|':'|'#'(|CR)
     #[kani::proof]
     #[kani::unwind(42)]
     #[kani::stub(avx2_enabled, any_bool)]
